@@ -167,7 +167,9 @@ func c10LongChains(c *ev.Ctx, blocks int) {
 		k   int
 	}
 	acts := [][]act{{}, {{false, 0}}, {{false, 1}}, {{true, 0}}, {{false, 0}, {false, 2}}, {{true, 0}, {true, 1}, {true, 2}}}
-	type job struct{ a, b, reopenAt int }
+	// periodic chains: even blocks apply set a, odd blocks set b; one-shot chains (p1 > 0): block p1 applies a,
+	// block p2 applies b, every other block is empty (a key present when a slot is filled and gone when it is recycled)
+	type job struct{ a, b, reopenAt, p1, p2 int }
 	jobs := make(chan job, 64)
 	var wg sync.WaitGroup
 	var mu sync.Mutex
@@ -188,6 +190,16 @@ func c10LongChains(c *ev.Ctx, blocks int) {
 					if b%2 == 1 {
 						as = acts[j.b]
 					}
+					if j.p1 > 0 {
+						switch b + 1 {
+						case j.p1:
+							as = acts[j.a]
+						case j.p2:
+							as = acts[j.b]
+						default:
+							as = nil
+						}
+					}
 					for _, a := range as {
 						if a.del {
 							s.apply(msOp{kind: "del", key: keys[a.k]})
@@ -205,12 +217,12 @@ func c10LongChains(c *ev.Ctx, blocks int) {
 					lsteps++
 					var sig, what string
 					if p := safely(func() {
-						sig, what = c10CompareAll(s, fmt.Sprintf("long chain (pattern %d/%d, reopen after block %d) ", j.a, j.b, j.reopenAt))
+						sig, what = c10CompareAll(s, fmt.Sprintf("long chain (pattern %d/%d, one-shot blocks %d/%d, reopen after block %d) ", j.a, j.b, j.p1, j.p2, j.reopenAt))
 					}); p != nil {
 						sig, what = "panic", fmt.Sprintf("panic: %v", p)
 					}
 					if sig != "" {
-						c.Report("statecache-long/"+sig, what, map[string]interface{}{"pattern_even": j.a, "pattern_odd": j.b, "reopen_after_block": j.reopenAt, "block": b + 1})
+						c.Report("statecache-long/"+sig, what, map[string]interface{}{"pattern_even": j.a, "pattern_odd": j.b, "one_shot_first": j.p1, "one_shot_second": j.p2, "reopen_after_block": j.reopenAt, "block": b + 1})
 						break
 					}
 				}
@@ -218,14 +230,23 @@ func c10LongChains(c *ev.Ctx, blocks int) {
 				n++
 				steps += lsteps
 				mu.Unlock()
-				c.Distinct(fmt.Sprintf("long|%d|%d|%d", j.a, j.b, j.reopenAt))
+				c.Distinct(fmt.Sprintf("long|%d|%d|%d|%d|%d", j.a, j.b, j.reopenAt, j.p1, j.p2))
 			}
 		}()
 	}
 	for a := range acts {
 		for b := range acts {
 			for _, r := range []int{-1, 2, 13} {
-				jobs <- job{a, b, r}
+				jobs <- job{a, b, r, 0, 0}
+			}
+		}
+	}
+	for _, a := range []int{1, 4} { // set k1 | set k1+k3
+		for _, b := range []int{3, 5, 2} { // del k1 | del all | set k2
+			for p1 := 1; p1 <= 3; p1++ {
+				for p2 := p1 + 1; p2 <= blocks; p2++ {
+					jobs <- job{a, b, -1, p1, p2}
+				}
 			}
 		}
 	}
@@ -241,7 +262,7 @@ func c10LongChains(c *ev.Ctx, blocks int) {
 func init() {
 	register(&Check{ID: "C10", QuickBud: 100 * time.Second, ThorBud: 30 * time.Minute,
 		Run: func(c *ev.Ctx) {
-			c.Rule = "BFS over all sequences of set/delete/commit/reopen/open-view on a real rootmulti.Store with the height cache enabled; at every state, for every committed height, every read (Get incl. nil-ness, Has, Iterator/ReverseIterator over all bounds incl. absent keys, direct and cache-wrapped) is executed on the cache-enabled node and on a cache-disabled node opened on a byte copy of the same DB and compared pairwise; plus chains of 15 blocks (cache capacity 12, slots recycle) over all pairs of 6 per-block action sets x 3 reopen points. Non-trivial = history with a commit"
+			c.Rule = "BFS over all sequences of set/delete/commit/reopen/open-view on a real rootmulti.Store with the height cache enabled; at every state, for every committed height, every read (Get incl. nil-ness, Has, Iterator/ReverseIterator over all bounds incl. absent keys, direct and cache-wrapped) is executed on the cache-enabled node and on a cache-disabled node opened on a byte copy of the same DB and compared pairwise; plus chains of 15 blocks (cache capacity 12, slots recycle) over all pairs of 6 per-block action sets x 3 reopen points, and one-shot chains (a write block at 1..3, a delete/write block at any later position, empty blocks otherwise). Non-trivial = history with a commit"
 			c.Assume("the comparison covers every committed height; which of them the node actually serves from the cache is the implementation's choice (all of them are compared)")
 			msRunSpecs(c, c10Specs(c.Tier))
 			c10LongChains(c, 15)
